@@ -8,8 +8,8 @@ package main
 
 import (
 	"bufio"
-	"crypto/sha256"
 	"bytes"
+	"crypto/sha256"
 	"encoding/json"
 	"flag"
 	"fmt"
@@ -74,15 +74,15 @@ type Summary struct {
 }
 
 type ReplayFile struct {
-	Prop    string         `json:"property"`
-	Seed    uint64         `json:"seed"`
-	Tier    string         `json:"tier"`
-	Mode    string         `json:"mode,omitempty"`
-	Tape    TapeData       `json:"tape"`
-	Verdict Violation      `json:"verdict"`
-	Min     map[string]int `json:"minimised_from,omitempty"`
-	Sample  any            `json:"workload_sample,omitempty"`
-	FromSeed bool          `json:"from_seed,omitempty"`
+	Prop     string         `json:"property"`
+	Seed     uint64         `json:"seed"`
+	Tier     string         `json:"tier"`
+	Mode     string         `json:"mode,omitempty"`
+	Tape     TapeData       `json:"tape"`
+	Verdict  Violation      `json:"verdict"`
+	Min      map[string]int `json:"minimised_from,omitempty"`
+	Sample   any            `json:"workload_sample,omitempty"`
+	FromSeed bool           `json:"from_seed,omitempty"`
 }
 
 type Finding struct {
@@ -356,12 +356,12 @@ func check(prop string, pc propConf, tier string) int {
 		chunks = append(chunks, chunk{f, c})
 	}
 	var (
-		mu      sync.Mutex
-		sums    []Summary
-		trouble []string
-		crashes []RunResult
-		next    int
-		retried int
+		mu         sync.Mutex
+		sums       []Summary
+		trouble    []string
+		crashes    []RunResult
+		next       int
+		retried    int
 		thirdParty = map[string]int{}
 	)
 	deadline := time.Now().Add(budget)
